@@ -23,6 +23,7 @@ func init() {
 	reg("C19", "C19.R6", "E2", "a JSON root re-used across the events of a batch is reset in every iteration", 1, ruleScratchRootReset)
 	reg("C19", "C19.R7", "E6", "payload buffers are only appended to, emptied, or shortened by a constant from their own end", 7, rulePayloadOnlyGrows)
 	reg("C19", "C19.R5", "E2", "Batch.ForEach visits every event except split parents, in order", 1, ruleForEachShape)
+	reg("C19", "C19.R8", "E2", "the shared HTTP client writes the payload into an acquired request once (the gzip writer appends)", 1, ruleRequestBodyWrittenOnce)
 }
 
 // outFns: the send functions of batched outputs: second argument of NewRetriableBatcher, or
@@ -828,4 +829,52 @@ func returnsValue(fn *ssa.Function, v ssa.Value) bool {
 		}
 	}
 	return false
+}
+
+// ruleRequestBodyWrittenOnce: the shared HTTP client writes the payload into a pooled request; with
+// gzip the body writer APPENDS a compressed member. A request acquired once is therefore prepared
+// once: a second preparation (a fail-over to the next endpoint on the same request) sends every
+// event of the batch twice.
+func ruleRequestBodyWrittenOnce(c *Ctx, r *Rule) {
+	n := 0
+	for _, fn := range c.ModFuncs {
+		if c.pkgOf(fn) != "xhttp" {
+			continue
+		}
+		for _, ci := range callsIn(fn) {
+			f := calleeFunc(ci)
+			if f == nil || !c.inModule(f) || f.Blocks == nil {
+				continue
+			}
+			// a preparing callee: writes the body of a *fasthttp.Request (SetBodyRaw / BodyWriter)
+			prepares := false
+			for _, cj := range callsIn(f) {
+				if g := calleeFunc(cj); g != nil && (g.Name() == "SetBodyRaw" || g.Name() == "BodyWriter" || g.Name() == "SetBody" || g.Name() == "AppendBody") {
+					prepares = true
+				}
+			}
+			if !prepares {
+				continue
+			}
+			n++
+			r.Inst(1)
+			again, at := c.pathExists(fn, ci, func(in ssa.Instruction) bool {
+				cj, ok := in.(ssa.CallInstruction)
+				return ok && calleeFunc(cj) == f
+			}, func(in ssa.Instruction) bool {
+				cj, ok := in.(ssa.CallInstruction)
+				if !ok {
+					return false
+				}
+				g := calleeFunc(cj)
+				return g != nil && (g.Name() == "AcquireRequest" || g.Name() == "Reset" || g.Name() == "ResetBody")
+			})
+			msg := "the payload is written into an acquired request once"
+			if again {
+				msg = "the request is prepared again at " + c.pos(at.Pos()) + " without being reset: with gzip the body writer appends, and the receiver gets every event of the batch twice"
+			}
+			r.Ob(!again, fmt.Sprintf("%s|%s|once-per-request", c.fnName(fn), f.Name()), ci.Pos(), msg)
+		}
+	}
+	r.Ob(n >= 1, "xhttp|prepare-sites", token.NoPos, fmt.Sprintf("%d places where the shared HTTP client fills a request", n))
 }
